@@ -32,7 +32,7 @@ checks = {
     text="seeded search over schedules and spurious wake-ups of generated 2-8 task channel/select workloads against the lifted channel runtime; millions of runs per minute, every run checked by history oracles derived from the property statement; a clean batch is evidence over the sampled schedules, not a proof"),
   note="trusted: the simulator's pthread semantics (mutex, cond with arbitrary signal target and spurious wake-ups), the Go compiler compiling the lifted source like llgo does, atomicity of plain memory accesses between sim points; the compiler lowering in ssa/datastruct.go is exercised only by the second phase (layer B: generated programs compiled by the real llgo and run under an LD_PRELOAD deterministic pthread scheduler, same oracles). Two unrepaired genuine defects (select-vs-select rendezvous, see known_findings.json C10-K1/K2) are matched structurally and printed as KNOWN-FINDING."),
 "C11": dict(
-  technique="deterministic simulation with fault injection: llgo's real sema_llgo.go and atomic.Value plus the unmodified std sync sources of three GOROOTs on simulated pthread objects, simulated atomics and clock; seeded schedule search with spurious wake-ups, arbitrary signal targets and clock jumps; counting oracles and porcupine linearizability against small sequential models (notify list, WaitGroup counter, register)",
+  technique="deterministic simulation with fault injection: llgo's real sema_llgo.go and atomic.Value plus the unmodified std sync sources of three GOROOTs on simulated pthread objects, simulated atomics and clock; seeded schedule search with spurious wake-ups, arbitrary signal targets and clock jumps; counting oracles and porcupine linearizability against small sequential models (notify list, WaitGroup counter, register); second phase: programs compiled by the real llgo under an LD_PRELOAD deterministic pthread scheduler with simulated thread resources (limit on threads neither finished-and-detached nor joined) and injected pthread_create failures",
   level=dict(category="exploration", design_ref="DESIGN.md §4.2",
     text="seeded search over schedules/faults of generated 2-8 task workloads per primitive (raw semaphore, notify list, Mutex, RWMutex, WaitGroup, Once, Cond, atomic.Value); every run checked for mutual exclusion, admission after release (no lost wake-up at quiescence), Wait-only-after-notify, Wait-only-at-zero, once-exactly-once, register linearizability, bounded liveness in a fair fault-free phase"),
   note="trusted: simulated pthread semantics; sequentially consistent stub atomics (the property's clause on hardware indivisibility / total order of sync/atomic operations is NOT decided here and cannot be by this technique); the go-statement clause is decided only by the second phase (layer B: templated programs compiled by the real llgo under the LD_PRELOAD deterministic pthread scheduler); std Go compiler compiles the lifted sources like llgo."),
